@@ -42,6 +42,9 @@ class _Future(Future):
         super(_Future, self).__init__()
         self._me_done_callbacks = []
         self._me_lock = RLock()
+        # Number of cancel() calls of this future currently on the stack of the
+        # thread holding _me_lock (only touched with the lock held).
+        self._me_cancelling = 0
 
     def _me_invoke_callbacks(self):
         for callback in self._me_done_callbacks:
@@ -70,21 +73,26 @@ class _Future(Future):
                 return True
             if self.done():
                 return False
-            cancelled_work = self._me_cancel()
-            if self.cancelled():
-                # Cancelling the underlying work has synchronously run
-                # callbacks which have already cancelled this future
-                # (waiters notified, callbacks invoked): nothing left to do,
-                # whatever the subclass answered.
-                return True
-            if not cancelled_work:
-                return False
-            out = super(_Future, self).cancel()
-            if out:
+            # Cancelling the underlying work may synchronously run callbacks
+            # which call back into this future (on this thread, as the lock
+            # is re-entrant) and cancel it already.
+            self._me_cancelling += 1
+            try:
+                cancelled_work = self._me_cancel()
+            finally:
+                self._me_cancelling -= 1
+            if not self.cancelled():
+                if not cancelled_work:
+                    return False
+                if not super(_Future, self).cancel():
+                    return False
                 self.set_running_or_notify_cancel()
-        if out:
+            # If an outer cancel() of this future is still on the stack, it
+            # holds the lock: callbacks are left to it.
+            nested = self._me_cancelling > 0
+        if not nested:
             self._me_invoke_callbacks()
-        return out
+        return True
 
     def _me_cancel_with_delegate(self):
         # To be called when the future we depend on turned out to have been
@@ -93,10 +101,14 @@ class _Future(Future):
         with self._me_lock:
             if self.done():
                 return
-            out = super(_Future, self).cancel()
-            if out:
-                self.set_running_or_notify_cancel()
-        if out:
+            if not super(_Future, self).cancel():
+                return
+            self.set_running_or_notify_cancel()
+            # Called from within our own cancel() (the delegate's callbacks
+            # ran synchronously)? Then that call invokes the callbacks, once
+            # it no longer holds the lock.
+            nested = self._me_cancelling > 0
+        if not nested:
             self._me_invoke_callbacks()
 
     def _me_cancel(self):
